@@ -327,6 +327,31 @@ def main():
                         if angdist(t.corners[3], b.corners[0]) > 1e-11 or angdist(t.corners[2], b.corners[1]) > 1e-11:
                             h.violation(f"share:{mode}", f"{nm} system: tiles {(n, x, y)} and {(n, x, y + 1)} do not share their common edge ({mode})", input={"pos": (n, x, y), "system": nm})
                     h.case()
+                # deep tiles (sampled): the area reported for a tile against an independent solid angle (Van Oosterom–Strackee on the
+                # corner vectors) and against the sum of its four children — relative, since the library's arccos-based arcs lose
+                # absolute precision as tiles shrink
+                def solid(t_):
+                    c_ = [np.array(xyz(q)) for q in t_.corners]
+
+                    def tri(a_, b_, d_):
+                        return 2.0 * math.atan2(abs(float(np.dot(a_, np.cross(b_, d_)))), 1.0 + float(np.dot(a_, b_)) + float(np.dot(b_, d_)) + float(np.dot(d_, a_)))
+                    return tri(c_[0], c_[1], c_[2]) + tri(c_[0], c_[2], c_[3])
+                for _ in range(12 if h.deep else 5):
+                    n = rng.choice([6, 7, 8, 9, 10, 12, 13])
+                    x, y = rng.randrange(2 ** n), rng.randrange(2 ** n)
+                    t_ = toast.create_single_tile(Pos(n, x, y), coordsys=cs)
+                    a_ = float(toast.toast_tile_area(t_))
+                    ref_ = solid(t_)
+                    kids_ = [toast.create_single_tile(Pos(n + 1, 2 * x + dx, 2 * y + dy), coordsys=cs) for dy in (0, 1) for dx in (0, 1)]
+                    sk_ = sum(float(toast.toast_tile_area(k_)) for k_ in kids_)
+                    h.case(("deep-area", mode, nm, n, x, y))
+                    h.count("numeric", f"deep-area-{mode}")
+                    if not (abs(a_ - ref_) <= 1e-6 * ref_):
+                        h.violation(f"area:{mode}", f"{nm} system: toast_tile_area of tile {(n, x, y)} is {a_!r}, the solid angle of its four corners is {ref_!r} (relative difference {abs(a_ - ref_) / ref_:.3g}) ({mode})",
+                                    input={"pos": (n, x, y), "system": nm})
+                    elif not (abs(sk_ - a_) <= 1e-6 * ref_):
+                        h.violation(f"nest:{mode}", f"{nm} system: tile {(n, x, y)} has area {a_!r} but its children add up to {sk_!r} (relative difference {abs(sk_ - a_) / ref_:.3g}) ({mode})",
+                                    input={"pos": (n, x, y), "system": nm})
                 # documented layout: the point (lon 0, lat 0) is the middle of the right-hand (astronomical) / left-hand (planetary) side
                 t = tiles[(1, 1, 0)] if nm == "a" else tiles[(1, 0, 0)]
                 corner = t.corners[2] if nm == "a" else t.corners[3]
